@@ -308,7 +308,8 @@ pub fn gen_project(rng: &mut Rng, opts: &GenOpts) -> Project {
     let nsrc = 1 + rng.below(opts.max_sources);
     for i in 0..nsrc {
         let d = pick_dir(rng, &p.dirs);
-        let name = match rng.below(4) {
+        let name = match rng.below(5) {
+            4 => format!("o{i}.min.txtpp.js"),
             0 => format!("o{i}.txtpp.txt"),
             1 => format!("o{i}.txtpp"),
             2 => format!("o{i}.min.js.txtpp"),
@@ -697,6 +698,11 @@ fn gen_error_item(
         1 => {
             b.head("", "-", "-TXTPP#include does/not/exist.txt".to_string(), false, false);
             p.sig.push("err:missing-include".into());
+        }
+        2 if rng.chance(1, 3) => {
+            b.head("", "-", "-TXTPP#run printf x; kill -KILL $$".to_string(), false, false);
+            p.add_cmd("printf x; kill -KILL $$", vec![Act { kind: "lit", arg: "x".into() }, Act { kind: "fail", arg: String::new() }]);
+            p.sig.push("err:cmd-killed-by-signal".into());
         }
         2 => {
             b.head("", "-", "-TXTPP#run exit 3".to_string(), false, false);
